@@ -195,7 +195,7 @@ impl TestInfo {
                 ResultCode::Return => println!("Received -return <{}>", exception.value()),
                 ResultCode::Break => println!("Received -break <>"),
                 ResultCode::Continue => println!("Received -continue <>"),
-                _ => unimplemented!(),
+                code => println!("Received -code {} <{}>", code, exception.value()),
             },
         }
     }
@@ -361,7 +361,9 @@ fn run_test(interp: &mut Interp, context_id: ContextID, info: &TestInfo) {
             }
         }
         Err(exception) => {
-            if info.code == Code::Error {
+            // Only an error can match an -error expectation; break, continue, return and
+            // other codes escaping from the body are unexpected outcomes.
+            if info.code == Code::Error && exception.is_error() {
                 if exception.value() == Value::from(&info.expect) {
                     ctx.num_passed += 1;
                 } else {
